@@ -39,6 +39,7 @@ type Store struct {
 	FaultAt func(kind string, n int) Fault
 	// hooks (ghost state for oracles)
 	OnCommit func(ops []Op, err error)
+	OnBegin  func(ops []Op)
 	// counters
 	NWrites  int
 	NIters   int
@@ -290,6 +291,9 @@ func (s *Store) apply(ops []Op) error {
 func (b *batch) Commit(ctx context.Context) error {
 	s := b.s
 	s.yield("commit")
+	if s.OnBegin != nil {
+		s.OnBegin(b.ops)
+	}
 	var err error
 	switch s.fault("commit") {
 	case FaultErr:
